@@ -186,7 +186,8 @@ def h_fixed_int(ctx):
 
 
 def _objects():
-    vals = V()
+    # the encoder writes what Python's json writes, the non-finite doubles included (as Infinity / -Infinity): what it writes it must read back
+    vals = V() + [float("inf"), float("-inf"), 1e308, 10 ** 400, -(2 ** 1024), 5e-324]
     objs = [{}]
     for i, v in enumerate(vals):
         objs.append({"k": v})
